@@ -4,7 +4,7 @@ import "verif/harness/core"
 
 // C08: retained messages (HIST part; the concurrent part is in the SCHED checks).
 func C08(c *core.Ctx) {
-	c.Rep.Bound = "HIST: retained / non-retained / empty-payload publishes at QoS 0-2 on three topics (one with an 8000-byte payload), ring-wrapping filler traffic, subscriptions with literal and wildcard filters (single and multi-filter), in-process Publish/Subscribe; BFS de-duplicated on model + implementation state, depth 5 (quick) / 7 (thorough); plus all sequences of depth 3/4 on a populated broker; SCHED: retained replace || subscribe (QoS 0/1) and retained publish || subscriber teardown, every schedule deviating from the default at <= 1 (quick) / 2 (thorough) points"
+	c.Rep.Bound = "HIST: retained / non-retained / empty-payload publishes at QoS 0-2 on three topics (one with an 8000-byte payload, two that differ in nothing but the QoS), ring-wrapping filler traffic, subscriptions with literal and wildcard filters (single and multi-filter), in-process Publish/Subscribe; BFS de-duplicated on model + implementation state, depth 5 (quick) / 7 (thorough); plus all sequences of depth 3/4 on a populated broker; SCHED: retained replace || subscribe (QoS 0/1) and retained publish || subscriber teardown, every schedule deviating from the default at <= 1 (quick) / 2 (thorough) points"
 	c.Rep.Rule = "after every action: each new subscription receives exactly the matching retained messages (retain=1, QoS min(stored, granted), payload byte-identical), live forwards carry retain=0, an empty retained payload clears; distinct = canonical model + retained tree states"
 	pr := func(topic string, q byte, id uint16, payload string) Action {
 		a := Action{Kind: "pub", Client: "P", Topic: topic, QoS: q, ID: id, Payload: payload, Retain: true}
@@ -15,7 +15,7 @@ func C08(c *core.Ctx) {
 	}
 	p8k := big(8000, 5)
 	ops := []Action{
-		pr("a", 1, 11, "P1"), pr("a", 0, 0, p8k), pr("a", 2, 12, ""), pr("a/b", 2, 13, "P3"), pr("b", 0, 0, "P4"), pr("a/b", 1, 14, ""),
+		pr("a", 1, 11, "P1"), pr("a", 0, 0, "P1"), pr("a", 0, 0, p8k), pr("a", 2, 12, ""), pr("a/b", 2, 13, "P3"), pr("b", 0, 0, "P4"), pr("a/b", 1, 14, ""),
 		pub("P", "a", 1, 15, "not-retained"),
 		pub("P", "zz", 0, 0, big(8100, 6)),
 		conn("S", "s", true),
